@@ -214,6 +214,7 @@ func c14ReadAll(te *typeEntry, r io.ReaderAt, size int64) (rows reflect.Value, e
 			panic(p)
 		}
 	}()
+	c14BloomMisses = 0
 	if c14FileOpts == nil {
 		return te.ops.ReadAll(r, size)
 	}
@@ -243,18 +244,30 @@ func c14ReadAll(te *typeEntry, r io.ReaderAt, size int64) (rows reflect.Value, e
 			return out, fmt.Errorf("Read made no progress")
 		}
 	}
-	// the bloom filters are part of what a full read of the file touches
+	// the bloom filters are part of what a full read of the file touches: every id read from a row
+	// group must be reported present by that row group's filter on the id column (column 0)
+	c14BloomMisses = 0
+	pos := 0
 	for _, rg := range f.RowGroups() {
-		for _, cc := range rg.ColumnChunks() {
-			if bf := cc.BloomFilter(); bf != nil {
-				if _, err := bf.Check(parquet.Int64Value(1)); err != nil {
+		n := int(rg.NumRows())
+		if bf := rg.ColumnChunks()[0].BloomFilter(); bf != nil {
+			for i := pos; i < pos+n && i < out.Len(); i++ {
+				ok, err := bf.Check(parquet.Int64Value(out.Index(i).Field(0).Int()))
+				if err != nil {
 					return out, err
+				}
+				if !ok {
+					c14BloomMisses++
 				}
 			}
 		}
+		pos += n
 	}
 	return out, nil
 }
+
+// c14BloomMisses: ids that the last successful c14ReadAll read but whose bloom filter answered absent.
+var c14BloomMisses int
 
 func runC14(c *Ctx) {
 	r := c.R
@@ -461,6 +474,11 @@ func runC14(c *Ctx) {
 				if ok, diff := eqRows(want, got); !ok {
 					c.Extra("readat_call", i)
 					c.Fail("c14.source_fault_absorbed", k2, "ReadAt call #%d of %d returned %s and the read succeeded with different rows: %s", i, calls, mname, diff)
+					return
+				}
+				if c14BloomMisses > 0 {
+					c.Extra("readat_call", i)
+					c.Fail("c14.source_fault_absorbed", k2, "ReadAt call #%d of %d returned %s, no error was raised and the bloom filter then answered absent for %d ids that are in its row group", i, calls, mname, c14BloomMisses)
 					return
 				}
 			}
